@@ -52,6 +52,7 @@ def finish(cfg, i, rng=None, rec=False, inherit=False, fail=False, slow=False):
     cfg["rec"] = [t for t in builds if rng is not None and rec and rng.random() < 0.5]
     cfg["inh"] = [[d for d in cfg["deps"][t - 1] if cfg["kind"][d - 1] == "b" and cfg["kind"][t - 1] != "a"
                    and inherit and (rng is None or rng.random() < 0.6)] for t in range(1, n + 1)]
+    cfg.setdefault("gates", [])
     cfg["id"] = "c%d" % i
     return cfg
 
